@@ -179,6 +179,26 @@ def memoised_functions(ctx, modnames):
                     bad.append(f"{a.arg}: {ann or '<unannotated>'}")
             out.append({"module": mn, "function": q, "line": fn.lineno, "file": src.rel, "decorators": decos, "bad_params": bad,
                         "stmt": f"@{decos[0]} def {fn.name}({', '.join(a.arg for a in fn.args.args)})"})
+        # call form: name = lru_cache(maxsize=...)(func) / cache(func)
+        defs = {fn.name: (fn, q) for fn, q in qidx.items() if isinstance(fn, ast.FunctionDef)}
+        for node in ast.walk(src.tree):
+            if not (isinstance(node, ast.Call) and len(node.args) == 1 and isinstance(node.args[0], ast.Name) and node.args[0].id in defs):
+                continue
+            callee = node.func.func if isinstance(node.func, ast.Call) else node.func
+            if ast.unparse(callee).split(".")[-1] not in ("cache", "lru_cache"):
+                continue
+            fn, q = defs[node.args[0].id]
+            if fn.args.vararg is not None and not fn.args.args:
+                continue  # a generic pass-through wrapper (def guarded(*args, **kwargs)): keyed by whatever its users pass
+            bad = []
+            for a in fn.args.args + fn.args.kwonlyargs:
+                ann = ast.unparse(a.annotation) if a.annotation is not None else ""
+                if a.arg in ("self", "cls") and not ann:
+                    ann = "type["
+                if not (ann.startswith(("type[", "Literal[")) or ann in ("bool", "str", "bytes", "EntityType")):
+                    bad.append(f"{a.arg}: {ann or '<unannotated>'}")
+            out.append({"module": mn, "function": q, "line": node.lineno, "file": src.rel, "decorators": [ast.unparse(node.func)], "bad_params": bad,
+                        "stmt": ast.unparse(node)[:100]})
     return out
 
 
@@ -331,4 +351,81 @@ def mutable_buffer_returns(ctx, modnames):
             continue
         out.append({"function": f"{mn}:{q}", "stmt": ast.unparse(n)[:100], "file": src.rel, "line": n.lineno,
                     "name": ast.unparse(n.value)[:40]})
+    return out
+
+
+MUTATORS = {"add", "discard", "remove", "pop", "popitem", "clear", "update", "setdefault", "append", "extend", "insert", "sort", "reverse",
+            "write", "seek", "truncate", "appendleft", "popleft", "__setitem__", "__delitem__", "intersection_update", "difference_update",
+            "symmetric_difference_update", "writelines"}
+MUTABLE_CTORS = {"set", "dict", "list", "bytearray", "defaultdict", "deque", "OrderedDict", "Counter", "BytesIO", "StringIO", "array"}
+
+
+def captured_mutations(ctx, modnames):
+    """Nested functions that mutate a container created in their enclosing function: the container lives as long as the
+    closure (for a cached factory or a decorator: for the life of the process) and is shared by every call and thread."""
+    out = []
+    for mn in modnames:
+        src = ctx.sm.get(mn)
+        if src is None:
+            continue
+        qidx = qualname_index(src.tree)
+
+        def own(fn):
+            stack = list(fn.body)
+            while stack:
+                n = stack.pop()
+                yield n
+                for ch in ast.iter_child_nodes(n):
+                    if not isinstance(ch, (ast.FunctionDef, ast.AsyncFunctionDef, ast.Lambda, ast.ClassDef)):
+                        stack.append(ch)
+        for outer, q in qidx.items():
+            if not isinstance(outer, ast.FunctionDef):
+                continue
+            created = {}
+            for n in own(outer):
+                if isinstance(n, (ast.Assign, ast.AnnAssign)) and getattr(n, "value", None) is not None:
+                    v = n.value
+                    mut = isinstance(v, (ast.Dict, ast.List, ast.Set, ast.DictComp, ast.ListComp, ast.SetComp)) or (
+                        isinstance(v, ast.Call) and ast.unparse(v.func).split(".")[-1] in MUTABLE_CTORS)
+                    if mut:
+                        for t in (n.targets if isinstance(n, ast.Assign) else [n.target]):
+                            if isinstance(t, ast.Name):
+                                created[t.id] = n.lineno
+            if not created:
+                continue
+            for inner in own(outer):
+                pass
+            for inner in [n for n in ast.walk(outer) if isinstance(n, ast.FunctionDef) and n is not outer]:
+                # names rebound locally in the inner function are its own
+                local = {a.arg for a in inner.args.args + inner.args.kwonlyargs + inner.args.posonlyargs}
+                if inner.args.vararg:
+                    local.add(inner.args.vararg.arg)
+                if inner.args.kwarg:
+                    local.add(inner.args.kwarg.arg)
+                nonlocal_names = set()
+                for n in own(inner):
+                    if isinstance(n, ast.Nonlocal):
+                        nonlocal_names |= set(n.names)
+                for n in own(inner):
+                    if isinstance(n, (ast.Assign, ast.AnnAssign, ast.AugAssign, ast.For, ast.With, ast.NamedExpr)):
+                        tg = n.targets if isinstance(n, ast.Assign) else [getattr(n, "target", None)] if not isinstance(n, ast.With) else \
+                            [i.optional_vars for i in n.items]
+                        for t in tg:
+                            if isinstance(t, ast.Name) and t.id not in nonlocal_names and not isinstance(n, ast.AugAssign):
+                                local.add(t.id)
+                for n in own(inner):
+                    name, how = None, None
+                    if isinstance(n, ast.Call) and isinstance(n.func, ast.Attribute) and isinstance(n.func.value, ast.Name) and \
+                            n.func.attr in MUTATORS:
+                        name, how = n.func.value.id, f".{n.func.attr}()"
+                    elif isinstance(n, (ast.Assign, ast.AugAssign, ast.Delete)):
+                        tg = n.targets if isinstance(n, (ast.Assign, ast.Delete)) else [n.target]
+                        for t in tg:
+                            if isinstance(t, ast.Subscript) and isinstance(t.value, ast.Name):
+                                name, how = t.value.id, "[...] assignment"
+                            elif isinstance(n, ast.AugAssign) and isinstance(t, ast.Name) and t.id in nonlocal_names:
+                                name, how = t.id, "augmented assignment"
+                    if name is not None and name in created and name not in local:
+                        out.append({"function": f"{mn}:{qidx.get(inner, inner.name)}", "outer": f"{mn}:{q}", "name": name, "how": how,
+                                    "stmt": ast.unparse(n)[:100], "file": src.rel, "line": n.lineno, "created_line": created[name]})
     return out
